@@ -104,12 +104,23 @@ func TestVerifC18_API(t *testing.T) {
 		// query ranges aligned to the finest unit
 		unit := vgtFinest(q)
 		nq := rapid.IntRange(2, 6).Draw(t, "nqueries")
-		cut := false
+		cut, edgeRange := false, false
 		var described []string
 		for qi := 0; qi < nq; qi++ {
 			l := fmt.Sprintf("r%d", qi)
 			var from, to time.Time
-			switch rapid.IntRange(0, 3).Draw(t, l+".kind") {
+			kind := rapid.IntRange(0, 5).Draw(t, l+".kind")
+			if kind <= 2 && kind >= 1 && len(anchors) == 0 {
+				kind = 3
+			}
+			switch kind {
+			case 1, 2: // ends right before / after the unit of a stored bit and starts near a coarser-unit boundary k units earlier
+				s := anchors[rapid.IntRange(0, len(anchors)-1).Draw(t, l+".endAt")]
+				to = vgtAdd(vgtTrunc(s, unit), unit, rapid.IntRange(0, 1).Draw(t, l+".incl"))
+				cu := rapid.SampledFrom([]rune(string(q))).Draw(t, l+".cu")
+				from = vgtAdd(vgtTrunc(s, cu), cu, -rapid.IntRange(0, 2).Draw(t, l+".back"))
+				from = vgtAdd(from, unit, -rapid.IntRange(0, 2).Draw(t, l+".j"))
+				edgeRange = true
 			case 0: // whole span of the stored timestamps (+- a unit)
 				from, to = vgtDate(2019, 1, 1, 0), vgtDate(2019, 1, 1, 0)
 				for i, a := range anchors {
@@ -200,7 +211,7 @@ func TestVerifC18_API(t *testing.T) {
 			}
 		}
 		nv := vC18ViewCount(bits, q)
-		c.ClassIf(cut, "rangeCutsData").ClassIf(nv >= 2, "multiView")
+		c.ClassIf(edgeRange, "rangeEndsAtStoredBit").ClassIf(cut, "rangeCutsData").ClassIf(nv >= 2, "multiView")
 		c.NT(cut && nv >= 2)
 		c.Sample(map[string]interface{}{"q": q, "noStandardView": noStd, "bits": fmt.Sprint(bits), "ranges": described})
 	})
